@@ -1767,8 +1767,9 @@ fn predict<I: SignedInteger>(coefficients: &[i64], qlp_shift: u32, channel: &mut
                 .iter()
                 .rev()
                 .zip(coefficients)
-                .map(|(x, y)| (*x).into() * y)
-                .sum::<i64>()
+                .fold(0i64, |sum, (x, y)| {
+                    sum.wrapping_add(Into::<i64>::into(*x).wrapping_mul(*y))
+                })
                 >> qlp_shift,
         ));
     }
